@@ -389,6 +389,7 @@ def build(tier):
     vcs += r[0]; fns.append(r[1])
     import kkt
     vcs += kkt.criterion(fns)
+    vcs += kkt.ro1(fns)
     vcs += kkt.kkt(fns)
     # corollary (pure SMT lemma on the formulas): at a feasible point with zero multipliers every term vanishes
     vcs.append(VC('lemma/feasible point, zero multipliers: every penalty and AL term is 0',
@@ -413,6 +414,7 @@ def build(tier):
                     'augmented-Lagrangian solver: status converged => the returned state is valid and its constraint violation is <= epsilon (inductive invariant violation(best) <= old criterion); the stored constraint values and the value/gradient belong to the returned point; outer loop terminates',
                     '::make_criterion (extracted, over the reals, generic coordinate, any number of constraints): ro > 0 and every miu_i >= 0 => criterion >= |h_i|, >= max(0, g_i), >= 0 for every i, hence >= max(|h|_inf, |max(0,g)|_inf) (lift lemma); its division by ro is defined',
                     'the two preconditions of ::make_criterion are obliged at both call sites of the AL loop (CBMC assertions in the stub) and are loop invariants: ro > 0 (make_ro1 range, ro = gamma * ro with gamma > 1) and every miu_i >= 0 (ghost sign flag maintained from make_full_vector(n, 0.0) and the `.max(0.0).min(miu_max)` chain of the multiplier update, miu_max > 0)',
+                    '::make_ro1(state) with its default bounds returns a value in [1e-6, 10] (std::clamp by its [alg.clamp] definition, lo <= hi obliged; the AL solver calls it with the defaults): the clause the CBMC stub nv_make_ro1 states',
                     'solver_state_t::kkt_optimality_test1..5 return the documented infinity norm of the documented vector (|max(g,0)|_inf, |h|_inf, |max(-mineq,0)|_inf, |mineq .* g|_inf, |lgx|_inf) of the STORED constraint values / multipliers; kkt_optimality_test() is the maximum of the five'],
         'not_decided': ['values/gradients of the 11 constraint kinds themselves (Eigen)',
                         'kkt_optimality_test5: that the stored m_lgx IS grad f + sum mineq_i grad g_i + sum meq_j grad h_j (solver_state_t::update_constraints loop) is not under contract; only the norm taken of it is',
@@ -420,7 +422,7 @@ def build(tier):
         'assumptions': ['IEEE double treated as real', 'penalty > 0', '::nano::vgrad(constraint, x, gc) returns the constraint value and writes its gradient to gc (opaque)',
                         'Eigen: `gx += s * gc` adds s times gc coefficient-wise', 'Eigen contracts used by the make_criterion / KKT walks (closed list of specs/C06/eig.py): coefficient-wise .max(s) / .max(array), unary minus, array / scalar, array * array, .array() / .matrix() adaptors; lpNorm<Eigen::Infinity>() of x is a number L with L >= |x_i| for every i and L >= 0, and equal coefficient terms give equal norms (congruence); lpNorm<1> is a different reduction about which nothing is known',
                         'make_criterion: miu.size() == state.cineq().size() (one multiplier per inequality: miu is make_full_vector(bstate.cineq().size(), 0.0) and the number of constraints is fixed by the function); solver_state_t: m_meq / m_mineq have the sizes of m_ceq / m_cineq (constructor, update)',
-                        'CBMC side: the clause proved for make_criterion is used for valid (finite) states only; sign rule of the uninterpreted product a > 0, b > 0 => a * b > 0 (SMT lemma over the reals; no underflow with a factor > 1); make_ro1 returns a value in [1e-6, 10] (std::clamp one-liner, assumed); sign analysis of the multiplier update: E.max(c) >= 0 if c >= 0, E.min(c) >= 0 if c >= 0 and E >= 0 (Eigen coefficient-wise max / min), an Eigen expression does not write its operands, a const map view (vector_cmap_t) does not write; mutating mentions of miu inside loop / if CONDITIONS are not looked for', 'state.update(x, ...) recomputes the constraint values at x (update_constraints); the same point has the same violation', 'the inner solver and ::nano::converged are havocked', 'the multiplier counters ilambda / imiu stay below 2^62 (they count elements of an in-memory vector)'],
+                        'CBMC side: the clause proved for make_criterion is used for valid (finite) states only; sign rule of the uninterpreted product a > 0, b > 0 => a * b > 0 (SMT lemma over the reals; no underflow with a factor > 1); sign analysis of the multiplier update: E.max(c) >= 0 if c >= 0, E.min(c) >= 0 if c >= 0 and E >= 0 (Eigen coefficient-wise max / min), an Eigen expression does not write its operands, a const map view (vector_cmap_t) does not write; mutating mentions of miu inside loop / if CONDITIONS are not looked for', 'state.update(x, ...) recomputes the constraint values at x (update_constraints); the same point has the same violation', 'the inner solver and ::nano::converged are havocked', 'the multiplier counters ilambda / imiu stay below 2^62 (they count elements of an in-memory vector)'],
         'trusted': [],
     }
 
